@@ -508,4 +508,8 @@ MUTATIONS += [
         (TINPUT, "        x = x.to(log_probs.dtype)\n", "        x = x.to(log_lik.dtype)\n"),
         (TINPUT, "        return log_binom + x * log_probs + (self.total_count - x) * log_compl_probs", "        return log_binom + log_lik"),
     ], expect={}),
+    # ---- R14r (the seed that was missed until a path-sensitive bound rule existed) and its correct twin
+    dict(id="w6-c16f", patch="seeded/C16f/patch.diff", expect={'C16': ['R14r:']}, allow_others=True),
+    dict(id="q-r14r-tight-table", quiet=True, file="cirkit/templates/region_graph/algorithms/chow_liu.py", old='            data = torch.div(data, num_categories // num_bins, rounding_mode="floor")\n', new='            data = torch.div(data, num_categories // num_bins, rounding_mode="floor")\n            num_categories = (num_categories - 1) // (num_categories // num_bins) + 1\n', expect={}),
+    dict(id="r14r-table-one-short", file="cirkit/templates/region_graph/algorithms/chow_liu.py", old='            data = torch.div(data, num_categories // num_bins, rounding_mode="floor")\n', new='            data = torch.div(data, num_categories // num_bins, rounding_mode="floor")\n            num_categories = (num_categories - 1) // (num_categories // num_bins)\n', expect={'C16': ['R14r:']}),
 ]
